@@ -192,4 +192,33 @@ def search(res, tier, boost=False):
                 if t > ta and (not taus or hx**2 / min(taus) > 16):
                     continue          # outside the quantifier (kernel sharper than the rules are designed for)
                 check(e, t, xh, sweep=True)
+        # elements very THIN in time (time level 10..16, h_t down to 1.5e-5; space size as the parabolic range admits),
+        # observed during and long after their own time interval from anywhere on the curve: the value is small but far
+        # above underflow and must be reproduced to the stated relative accuracy
+        from ..slchecks import StubElem, addr_interval
+        stubs = []
+        for _ in range(6 if tier == 'quick' else 20):
+            pc = rng.randrange(len(gamma.pw_gamma))
+            lt = rng.randint(10, 16)
+            plen = float(gamma.pw_start[pc + 1] - gamma.pw_start[pc])
+            lx = 0
+            while (plen * 2.0**-lx)**2 * 2.0**lt > 16:
+                lx += 1
+            lx += rng.randint(0, 1)
+            if len(gamma.pw_gamma) == 1:
+                lx = max(lx, 2)
+            ht = 2.0**-lt
+            kt = rng.choice([0, 1, 3, rng.randrange(2**lt)])
+            stubs.append(StubElem((kt * ht, (kt + 1) * ht), addr_interval(gamma, (pc, lx, rng.randrange(2**lx))), gamma.pw_gamma[pc]))
+        SL._init_elems(stubs)
+        for e in stubs:
+            ta, tb = map(float, e.time_interval)
+            hx = float(e.space_interval[1] - e.space_interval[0])
+            for t in (ta + (tb - ta) * rng.uniform(0.3, 1.0), tb + (tb - ta) * rng.uniform(0.5, 4.0), tb + 10**rng.uniform(-3, -0.3), tb + 1.0):
+                for _ in range(3):
+                    xh = rng.uniform(0, L)
+                    taus = [v for v in (t - ta, t - tb) if v > 0]
+                    if not taus or hx**2 / min(taus) > 16:
+                        continue
+                    check(e, t, xh, sweep=True)
     res.notes['worst_rel_error'] = worst
